@@ -385,6 +385,22 @@ def check_add_edge(ctx, res: Result, cls: str):
                 names = {x.id for x in ast.walk(iff.test) if isinstance(x, ast.Name)}
                 if "metadata" in names and "weight" not in names and any(v.cfg.branch_dominated(tid, lab, aid) for lab in ("T", "F")):
                     dep = iff
+            # ... nor on whether a weight was supplied: an omitted weight means 1 for a repeated insertion as it does for the first one
+            # (`if self._weighted and weight is not None: += weight` with the default moved into the new-record arm makes
+            # add_edges(batch) / the constructor - which hand no weight on - stop counting repeats)
+            depw = None
+            for iff in walk_no_nested(v.fi.node):
+                if not isinstance(iff, ast.If) or aid is None:
+                    continue
+                tid = v.cfg.by_ast.get(id(iff.test))
+                if tid is None:
+                    continue
+                for c_ in ast.walk(iff.test):
+                    if isinstance(c_, ast.Compare) and len(c_.ops) == 1 and isinstance(c_.ops[0], (ast.Is, ast.IsNot)) and isinstance(c_.left, ast.Name) and c_.left.id == wparam and isinstance(c_.comparators[0], ast.Constant) and c_.comparators[0].value is None:
+                        lab = _implied_branch(iff.test, c_, isinstance(c_.ops[0], ast.IsNot))  # the branch on which a weight WAS given
+                        if lab and v.cfg.branch_dominated(tid, lab, aid):
+                            depw = iff
+            res.check(depw is None, "P-ACCUM", f, norm(o.node), "omitted-weight-is-1", f"the weight of an existing record is accumulated only when `{norm(depw.test)[:50] if depw is not None else ''}`: a repeated insertion without a weight (add_edges without weights, the constructor) no longer adds the default 1", _where(v, o.node))
             res.check(dep is None, "P-ACCUM", f, norm(o.node), "whatever-the-metadata", f"the weight of an existing record is accumulated only on one side of `{norm(dep.test)[:50] if dep is not None else ''}`: a re-insertion that carries metadata (or one that does not) replaces the metadata and loses the weight it should add", _where(v, o.node))
     if not outside:
         via = [o for o in v.ops(with_calls=True) if o.table == "_weights" and o.op in ("store", "aug") and o.via]
@@ -1807,6 +1823,20 @@ def check_merge_key(ctx, res: Result, cls: str, rule="P-MERGEKEY"):
                         continue
                     # the id is looked up through the edge index: T[ self._edge_list[K2] ]
                     idx = t.slice
+                    if isinstance(idx, ast.Name) and isinstance(n, ast.AugAssign) and (v.table_of(t.value) or (None, None))[1] == "_weights":
+                        # ids held in locals: `target_id = self._edge_list[key]` is the found record; `self._weights[edge_id] +=
+                        # self._weights[target_id]` adds the found record's weight INTO the other record (the one being removed)
+                        found_ids = {a_.targets[0].id for a_ in walk_no_nested(fi.node) if isinstance(a_, ast.Assign) and len(a_.targets) == 1 and isinstance(a_.targets[0], ast.Name) and isinstance(a_.value, ast.Subscript) and (v.table_of(a_.value.value) or (None, None))[1] == "_edge_list" and _same_expr(a_.value.slice, m.key, v)}
+                        nid_ = v.cfg_id(n)
+                        if found_ids and nid_ is not None and v.cfg.branch_dominated(tid, present, nid_):
+                            reads_found = any(isinstance(x, ast.Subscript) and (v.table_of(x.value) or (None, None))[1] == "_weights" and isinstance(x.slice, ast.Name) and x.slice.id in found_ids for x in ast.walk(n.value))
+                            if idx.id in found_ids:
+                                n_sites += 1
+                                res.ok(rule, fi.short, norm(n)[:110], "same-key", _where(v, n))
+                            elif reads_found:
+                                n_sites += 1
+                                res.violation(rule, fi.short, norm(n)[:110], "same-key", f"`{norm(m.key)}` was found in the edge index (its record is `{sorted(found_ids)[0]}`), but the merged weight is stored in the record `{idx.id}` - the one that is removed afterwards: the surviving record keeps its old weight", _where(v, n))
+                        continue
                     if not (isinstance(idx, ast.Subscript) and (v.table_of(idx.value) or (None, None))[1] == "_edge_list"):
                         continue
                     nid = v.cfg_id(n)
